@@ -10,6 +10,7 @@ from __future__ import annotations
 
 import collections
 import os
+import warnings
 import sys
 import time
 from collections import OrderedDict, UserDict, defaultdict, deque, namedtuple
@@ -432,6 +433,26 @@ for _step, _ns, _fl in (('register', 'vf-hist-a', _chist_other_flatten), ('regis
     except Exception as _e:  # noqa: BLE001
         HISTORY_ERRORS.append(f'{_step}(CHist, namespace={_ns!r}) raised {type(_e).__name__}: {_e}')
 _record(NS, CHist, lambda o: (list(o.kids), ('CHist', o.meta), None), _chist_unflatten, optree.AutoEntry)
+
+
+# --- 6d. a struct-sequence TYPE registered explicitly (in NS only): the registration takes precedence over the built-in struct-sequence
+#         handling there; everywhere else os.times_result stays an ordinary struct-sequence node
+def _ss_custom_flatten(o):
+    tick('flatten:times_result/vf', o)
+    n = len(o)
+    # children handed over by a generator, in reverse field order, each addressed by its real index
+    return (x for x in reversed(tuple(o))), ('times_result/vf',), tuple(range(n - 1, -1, -1))
+
+
+def _ss_custom_unflatten(metadata, children):
+    tick('unflatten:times_result/vf', metadata)
+    return os.times_result(tuple(reversed(list(children))))
+
+
+with warnings.catch_warnings():
+    warnings.simplefilter('ignore')
+    optree.register_pytree_node(os.times_result, _ss_custom_flatten, _ss_custom_unflatten, path_entry_type=optree.SequenceEntry, namespace=NS)
+_record(NS, os.times_result, lambda o: (list(reversed(tuple(o))), ('times_result/vf',), tuple(range(len(o) - 1, -1, -1))), _ss_custom_unflatten, optree.SequenceEntry)
 
 
 # --- 7. user-defined PyTreeEntry subclass, tuple entries
